@@ -98,6 +98,9 @@ pub fn any_world(errs: &[i32]) -> (libc::stat64, libc::stat64, bool, i32) {
     (lst, sst, s_ok, s_err)
 }
 
+// @harness props=C10,C13,C14,C15,C16,C03 tier=quick cost=3
+// @exec std::fs::Metadata accessors (mode, ino, nlink, uid, gid, len, times, file_type) over the fabricated record
+// @bounds loop-free
 /// Validates the Metadata layout trick against std's own accessors.
 #[kani::proof]
 fn metadata_layout_selfcheck() {
@@ -122,4 +125,59 @@ fn metadata_layout_selfcheck() {
 fn metadata_layout_selfcheck_canary() {
     let (m, st) = any_metadata();
     assert!(m.ino() == st.st_nlink); // wrong on purpose: must FAIL
+}
+
+/// Reference for "the status record the follow mode selects" (C13): lstat under -P, stat under -L
+/// (lstat for a dangling link), stat under -H for depth 0 only.  None = the stat error is reported.
+pub fn selected_record(lst: libc::stat64, sst: libc::stat64, s_ok: bool, s_err: i32, follows: bool) -> Option<libc::stat64> {
+    if follows {
+        if s_ok { Some(sst) } else if s_err == libc::ENOENT || s_err == libc::ENOTDIR { Some(lst) } else { None }
+    } else {
+        Some(lst)
+    }
+}
+
+// @harness props=C13 tier=quick cost=60 flags=nomem
+// @exec WalkEntry::{new,metadata,get_metadata,depth,follow}, Follow::{follow_at_depth,metadata_at_depth}, WalkError::{from,is_not_found,kind}
+// @sym lstat record and stat record (12 fields each, full width), stat success flag, stat errno in {ENOENT,ENOTDIR,ELOOP,EACCES}, follow mode P/H/L, depth 0..2
+// @bounds one path; depth <= 2 (only depth==0 vs >0 matters to the code)
+// @assume kernel contract: stat()==lstat() unless lstat says symlink; stat() never reports a symlink
+/// WalkEntry::metadata() returns exactly the record the follow mode selects.
+#[kani::proof]
+#[kani::unwind(3)]
+#[kani::stub(alloc::fmt::format, fmt_stub)]
+#[kani::stub(std::fs::metadata, stat_stub)]
+#[kani::stub(std::fs::symlink_metadata, lstat_stub)]
+fn c13_entry_metadata_record() {
+    let (lst, sst, s_ok, s_err) = any_world(&[libc::ENOENT, libc::ENOTDIR, libc::ELOOP, libc::EACCES]);
+    let follow = any_follow();
+    let depth: usize = kani::any();
+    kani::assume(depth <= 2);
+    let entry = WalkEntry::new("a", depth, follow);
+    let want = selected_record(lst, sst, s_ok, s_err, follow.follow_at_depth(depth));
+    match (entry.metadata(), want) {
+        (Ok(m), Some(w)) => {
+            assert!(m.mode() == w.st_mode && m.ino() == w.st_ino && m.uid() == w.st_uid && m.gid() == w.st_gid);
+            assert!(m.nlink() == w.st_nlink && m.len() == w.st_size as u64);
+        }
+        (Err(e), None) => { std::mem::forget(e); }
+        _ => assert!(false, "wrong record selected"),
+    }
+    kani::cover!(follow == Follow::Roots && depth == 0 && s_ok && is_type(lst.st_mode, libc::S_IFLNK));
+    kani::cover!(follow == Follow::Always && !s_ok && s_err == libc::ENOENT);
+    kani::cover!(follow == Follow::Roots && depth == 1);
+    std::mem::forget(entry);
+}
+#[kani::proof]
+#[kani::unwind(3)]
+#[kani::stub(alloc::fmt::format, fmt_stub)]
+#[kani::stub(std::fs::metadata, stat_stub)]
+#[kani::stub(std::fs::symlink_metadata, lstat_stub)]
+fn c13_entry_metadata_record_canary() {
+    let (lst, _sst, _s_ok, _s_err) = any_world(&[libc::ENOENT]);
+    let follow = any_follow();
+    let entry = WalkEntry::new("a", 0, follow);
+    // wrong on purpose: claims lstat is always used
+    if let Ok(m) = entry.metadata() { assert!(m.mode() == lst.st_mode); }
+    std::mem::forget(entry);
 }
